@@ -27,8 +27,8 @@ func RunSafety(c *simkit.Ctx) {
 	}
 	w := newWorld(c, cfg)
 	defer w.shutdown()
-	c.Logf("config n=%d stakes=%v byz=%v drop=%d‰ dup=%d‰ lat=%v+%v part=%v rootUpdates=%v(%d‰) phase=%dms heights=%d startH=%d",
-		cfg.n, cfg.stakes, cfg.byz, cfg.dropPct, cfg.dupPct, cfg.minLat, cfg.jitter, cfg.partitions, cfg.rootUpdates, cfg.rootRate, cfg.phaseMS, cfg.heights, w.startH)
+	c.Logf("config plan=%d n=%d stakes=%v byz=%v drop=%d‰ dup=%d‰ lat=%v+%v part=%v rootUpdates=%v(%d‰) phase=%dms heights=%d startH=%d",
+		w.adv.plan, cfg.n, cfg.stakes, cfg.byz, cfg.dropPct, cfg.dupPct, cfg.minLat, cfg.jitter, cfg.partitions, cfg.rootUpdates, cfg.rootRate, cfg.phaseMS, cfg.heights, w.startH)
 	for _, n := range w.nodes {
 		n.start()
 	}
@@ -120,12 +120,16 @@ func RunLiveness(c *simkit.Ctx) {
 		if committedAfterGST {
 			return true
 		}
+		// phase skew between correct replicas (accumulated before GST through stalls, resets and pacemaker
+		// jumps) is constant while phase lengths grow with the round: rounds only count against the budget
+		// once a phase is at least twice as long as the worst observed skew
+		limit := w.livenessLimit()
 		for _, n := range w.honest() {
 			c.Check()
-			if n.bft.Height == w.gstHeight+1 && n.bft.Round > w.gstRound+livenessK {
+			if n.bft.Height == w.gstHeight+1 && n.bft.Round > limit {
 				c.ReportFor("C15", "bounded-liveness", "no-commit-within-round-budget",
-					fmt.Sprintf("GST at %v with highest correct round %d; correct replica n%d reached round %d (> R+%d) at %v and no correct replica has committed height %d",
-						w.cfg.gst, w.gstRound, n.idx, n.bft.Round, livenessK, w.now(), w.gstHeight+1))
+					fmt.Sprintf("GST at %v with highest correct round %d, worst phase skew %v (round limit %d); correct replica n%d reached round %d at %v and no correct replica has committed height %d",
+						w.cfg.gst, w.gstRound, w.worstSkew, limit, n.idx, n.bft.Round, w.now(), w.gstHeight+1))
 			}
 		}
 		return false
@@ -140,11 +144,11 @@ func RunLiveness(c *simkit.Ctx) {
 				maxR = n.bft.Round
 			}
 		}
-		if c.Events < cfg.maxEvents {
+		if w.exit == "quiescent" {
 			c.ReportFor("C15", "bounded-liveness", "quiescent-without-commit",
 				fmt.Sprintf("after GST (%v) the system went quiescent at %v without a commit (rounds up to %d, heights %v)", w.cfg.gst, w.now(), maxR, heights(w)))
 		}
-		c.Probe("run_budget_exhausted_before_commit")
+		c.Probe("inconclusive_" + w.exit + "_before_commit")
 	} else if committedAfterGST {
 		c.Progress++
 		c.Probe("commit_after_gst")
@@ -198,4 +202,60 @@ func (w *world) syncLagging() {
 			w.push(&event{at: w.now() + 5*time.Millisecond, kind: "cert", to: n.idx, from: best.idx, data: bz, desc: "sync"})
 		}
 	}
+}
+
+// livenessLimit returns the round a correct replica may reach without a commit: R + K, where R is the
+// larger of the highest correct round at GST and the first round whose phases are at least twice as
+// long as the worst skew between correct replicas' round start times observed since GST.
+func (w *world) livenessLimit() uint64 {
+	hs := w.honest()
+	// update the worst skew from rounds all correct replicas (at the GST height + 1) have started
+	var common []uint64
+	if len(hs) > 0 && hs[0].roundStart != nil {
+		for r := range hs[0].roundStart {
+			all := true
+			for _, n := range hs {
+				if n.rsHeight != w.gstHeight+1 || n.roundStart == nil {
+					all = false
+					break
+				}
+				if _, ok := n.roundStart[r]; !ok {
+					all = false
+					break
+				}
+			}
+			if all && r >= w.gstRound {
+				common = append(common, r)
+			}
+		}
+	}
+	for _, r := range common {
+		lo, hi := hs[0].roundStart[r], hs[0].roundStart[r]
+		for _, n := range hs {
+			t := n.roundStart[r]
+			if t < lo {
+				lo = t
+			}
+			if t > hi {
+				hi = t
+			}
+		}
+		if hi-lo > w.worstSkew {
+			w.worstSkew = hi - lo
+		}
+	}
+	base := w.gstRound
+	phase := time.Duration(w.cfg.phaseMS) * time.Millisecond
+	// smallest r with (2r+1)*phase >= 2*skew
+	need := uint64(0)
+	if w.worstSkew > 0 {
+		x := (2*w.worstSkew + phase - 1) / phase // ceil(2*skew/phase)
+		if x > 1 {
+			need = uint64((x - 1 + 1) / 2)
+		}
+	}
+	if need > base {
+		base = need
+	}
+	return base + livenessK
 }
